@@ -21,6 +21,7 @@ from jellyfysh.scheduler.heap_scheduler._heap import ffi, lib  # noqa: E402
 from jellyfysh.scheduler.list_scheduler import ListScheduler  # noqa: E402
 
 MAXC = 3
+BIG = 1000000          # Time(inf, inf) in the trace (SchedAbs!PlusInf); finite quotients stay far below
 OFF = 2 ** 32 - 1 - MAXC
 INF = float("inf")
 
@@ -78,7 +79,7 @@ def main():
             # favour the lowest handler numbers in churn phases: many stale entries of few handlers (overflow path)
             h = rnd.choice(free[:3]) if (phase == 1 and rnd.random() < 0.7) else rnd.choice(free)
             if rnd.random() < 0.04:
-                t, q, r = Time(INF, INF), 1000, 1000
+                t, q, r = Time(INF, INF), BIG, BIG
             else:
                 if rnd.random() < 0.93:
                     q = now[0] + rnd.randint(0, qmax)
@@ -89,11 +90,11 @@ def main():
             before = heap._minimal_valid_counter[handlers[h]]
             heap.push_event(t, handlers[h])
             lst.push_event(t, handlers[h])
-            if q != 1000 and before > 2 ** 32 - 1:
+            if q != BIG and before > 2 ** 32 - 1:
                 era[h] += 1
             live[h] = (q, r)
             rec.update(h=h, q=q, r=r)
-            ops.write("P %d %d %d\n" % (h, q, r) if q != 1000 else "N\n")
+            ops.write("P %d %d %d\n" % (h, q, r) if q != BIG else "N\n")
         elif kind in ("trash", "trash_last"):
             cands = sorted(live)
             h = rnd.choice(cands[:3]) if (phase == 1 and rnd.random() < 0.7) else rnd.choice(cands)
@@ -111,7 +112,7 @@ def main():
             heap, lst, handlers = mod.loads(mod.dumps((heap, lst, handlers)))
             ops.write("K\n")
         else:
-            finite = [v for v in live.values() if v[0] != 1000]
+            finite = [v for v in live.values() if v[0] != BIG]
             try:
                 ret = heap.get_succeeding_event()
                 rec.update(ret=ret.ident, err="none")
@@ -120,7 +121,7 @@ def main():
             except SchedulerError as e:
                 rec.update(ret=0, err="empty" if "does not contain any events" in str(e) else "decreasing")
                 if finite:   # make progress: the next trash removes a minimal live event
-                    last_ok = min((v, k) for k, v in live.items() if v[0] != 1000)[1]
+                    last_ok = min((v, k) for k, v in live.items() if v[0] != BIG)[1]
                     force_trash[0] = True
             ops.write("G\n")
             if finite:
